@@ -148,6 +148,9 @@ func c13Random(run *mon.Run, rng *mon.Rand, steps int, sample bool) {
 	}
 	w.m.mustHaveHist[w.e.L2.Ctx.BlockHeight()] = true
 	w.specBlocks, w.e.L2.Speculate = rng.Bool(), rng.Bool()
+	if rng.Bool() {
+		w.e.EnableShadow(rng.U64())
+	}
 	feat := map[string]bool{}
 	addedThisBlock := map[int]bool{}
 	removedEarlier := map[int]bool{}
